@@ -17,8 +17,12 @@ fn process_plane(input: &mut dyn Read, width: u32, height: u32, output: &mut [u8
 	let mut x;
 	let mut revcode;
 
-    let mut this_line: u32;
-    let mut last_line: u32 = 0;
+    // offsets into output are computed in usize: width * height * 4 does not fit u32
+    // for large bitmaps (e.g. 32768 x 32768)
+    let width = width as usize;
+    let height = height as usize;
+    let mut this_line: usize;
+    let mut last_line: usize = 0;
 
 	while indexh < height {
 		let mut out = (width * height * 4) - ((indexh + 1) * width * 4);
